@@ -1,5 +1,5 @@
 From Coq Require Import ZArith NArith List Bool Lia Arith ZifyBool ZifyNat.
-From PV Require Import Model.Filters Spec.C20.
+From PV Require Import Model.FiltersOverlap Model.Filters Spec.C20.
 Import ListNotations.
 Open Scope Z_scope.
 
@@ -242,3 +242,37 @@ Qed.
 
 Theorem C20_chain : C20_chain_statement.
 Proof. intros k1 k2 t0 calls. cbn zeta. apply chain_gen. Qed.
+
+(* ---- overlapping calls ---- *)
+Lemma ostep_call k s t x :
+  ostep false k s (OCall t x) =
+  let '(f1, o) := fstep k (o_f s) t x in (mkO f1 (match o with Some _ => o_running s ++ [t] | None => o_running s end), o).
+Proof. unfold ostep. destruct k; try reflexivity; destruct x; reflexivity. Qed.
+
+Lemma ostep_done k s : o_f (fst (ostep false k s ODone)) = o_f s /\ snd (ostep false k s ODone) = None.
+Proof. unfold ostep. destruct (o_running s); [split; reflexivity|]. destruct k; split; reflexivity. Qed.
+
+Lemma overlap_gen k evs : forall s,
+  fst (orun false k s evs) = fst (frun k (o_f s) (calls_of evs)) /\
+  o_f (snd (orun false k s evs)) = snd (frun k (o_f s) (calls_of evs)).
+Proof.
+  induction evs as [|e rest IH]; intros s; [split; reflexivity|].
+  destruct e as [t x|].
+  - cbn [orun calls_of flat_map app]. change (flat_map _ rest) with (calls_of rest). rewrite ostep_call.
+    cbn [frun]. destruct (fstep k (o_f s) t x) as [f1 o] eqn:E.
+    set (s1 := mkO f1 _). specialize (IH s1). change (o_f s1) with f1 in IH.
+    destruct (orun false k s1 rest) as [os s2]. destruct (frun k f1 (calls_of rest)) as [os' f2]. cbn [fst snd] in *.
+    destruct IH as [A B]. split; [now rewrite A|exact B].
+  - cbn [orun calls_of flat_map app]. change (flat_map _ rest) with (calls_of rest).
+    destruct (ostep_done k s) as [A B]. destruct (ostep false k s ODone) as [s1 o]. cbn [fst snd] in A, B.
+    specialize (IH s1). rewrite A in IH. destruct (orun false k s1 rest) as [os s2]. exact IH.
+Qed.
+
+Theorem C20_overlap : C20_overlap_statement.
+Proof. intros k t0 evs. cbv zeta. apply (overlap_gen k evs (mkO (finit k t0) [])). Qed.
+
+(* D24: with the reset after the callback has returned, a value that arrives while the callback runs is delivered twice *)
+Theorem C20_aggregate_late_reset_refuted :
+  fst (orun true (KAggregate 5) (mkO (finit (KAggregate 5) 0) []) [OCall 1 (FNum 1); OCall 6 (FNum 2); OCall 6 (FNum 10); ODone; ODone]) =
+  [None; Some (FNum 3); Some (FNum 13)].
+Proof. vm_compute. reflexivity. Qed.
